@@ -5,7 +5,7 @@ CONSTANTS
   RecHdr = 1
   BatchHdr = 1
   Queues = {0, 1}
-  MaxOps = 5
+  MaxOps = 4
   MaxPost = 1
   MaxCrashes = 0
   Policy = "always_flush"
